@@ -67,6 +67,22 @@ impl C02 {
             Ok(Ok(b)) => b,
         };
         cx.count("write_ok");
+        // a destination that runs full part-way (every ninth case): reporting success means every byte arrived
+        if !via_file && !short_sink && cx.n % 9 == 4 && !buf.is_empty() {
+            let cap = cx.rng.usize(buf.len());
+            let mut fd = FullDisk { inner: Vec::new(), cap };
+            match guard(|| lib.write(&mut fd).is_ok()) {
+                Err(c) => cx.violation(&format!("write-panic|full-destination|{}|{}", c.site(), c.norm_msg()), json!({"case": desc, "panic": c.msg})),
+                Ok(true) => cx.violation("write-reports-success-on-a-destination-that-ran-full", json!({"case": desc, "stream_bytes": buf.len(), "destination_took": fd.inner.len()})),
+                Ok(false) => {
+                    if !buf.starts_with(&fd.inner) {
+                        cx.violation("bytes-before-the-destination-ran-full-differ", json!({"case": desc}));
+                    } else {
+                        cx.count("full_destination_reported");
+                    }
+                }
+            }
+        }
         cx.count_n("bytes_inspected", buf.len() as u64);
         match decode(&buf, false) {
             Err(e) => cx.violation(&format!("malformed|{}", reason_class(&e)), json!({"case": desc, "decoder": e, "bytes": render_bytes(&buf)})),
